@@ -104,6 +104,14 @@ def programs(draw, feats=ALL_FEATS, min_nodes=2, max_nodes=8, clean=True, modes=
             kind = _weighted(draw, kinds)
             kw = f'k{j}'
             if kind == 'sw':
+                # sometimes reuse an existing named switch mark (one synthetic switch node shared by two consumers)
+                prior = [m for n_ in b.nodes for _, m in n_['params'] if m[0] == 'sw' and m[1] is not None
+                         and all(readable(x) for x in S.mark_sources(m))]
+                if prior and draw(st.integers(0, 3)) == 0:
+                    m = draw(st.sampled_from(prior))
+                    node['params'].append([kw, [m[0], m[1], m[2], [list(c) for c in m[3]]]])
+                    used.update(S.mark_sources(m))
+                    continue
                 sw = pick()
                 if sw is None:
                     continue
